@@ -217,7 +217,16 @@ class Check:
             import re
 
             args = [a for a in args if re.search(flt, a[1])]
-        workers = workers or min(16, max(1, len(args)))
+        if workers is None:
+            try:
+                cap = int(os.environ.get("VERIF_WORKERS", "0"))
+            except ValueError:
+                cap = 0
+            if not cap:
+                # be a good neighbour on a loaded machine (other checks / agents running)
+                load = os.getloadavg()[0]
+                cap = 16 if load < 8 else max(3, int(16 - load / 3))
+            workers = min(cap, max(1, len(args)))
         if workers == 1 or len(args) == 1:
             results = [_run_case(a) for a in args]
         else:
